@@ -38,6 +38,7 @@ type runStats struct {
 	sched    core.SchedStats
 	executed int
 	feat     uint64 // distinctness signature (0 = trivial)
+	other    bool   // twin oracles: the failure is not attributable to this property
 }
 
 type check struct {
@@ -155,10 +156,14 @@ func execute(c *core.Case, ref *isa.Result) (*mach.Outcome, core.SchedStats, err
 		return nil, core.SchedStats{}, err
 	}
 	done := core.InstallSched(c.Sched)
-	out := mach.Run(c.Cfg, app, c.Init, core.BudgetTicks(len(ref.Trace)), nil)
+	out := mach.Run(c.Cfg, app, c.Init, core.BudgetTicks(len(ref.Trace))/budgetDivisor, nil)
 	st := done()
 	return out, st, nil
 }
+
+// budgetDivisor shortens the tick budget while a hang is being minimised (the
+// minimised case is re-judged under the full budget before it is reported).
+var budgetDivisor = 1
 
 // refOf runs the reference; ok=false if the case is not a valid input.
 func refOf(c *core.Case, allowErrors bool) (*isa.Result, bool) {
@@ -250,6 +255,9 @@ func (w *check) Run(b api.Batch) *api.Result {
 					res.Count("fired:"+n, int64(st.probes[i]))
 				}
 			}
+			if st.other {
+				res.Count("fails_with_and_without_the_fault:other_defect:"+v.String(), 1)
+			}
 			if st.feat != 0 {
 				res.Seen(rng.Derive(st.feat, uint64(v), uint64(cs.Cfg.Parallelism())))
 			}
@@ -278,8 +286,17 @@ func (w *check) Run(b api.Batch) *api.Result {
 					}
 					return cl
 				}
-				mc, _ = core.Minimize(cs, class, chk, 1500)
-				_, detail, _ = w.judge(w, mc)
+				evals := 1500
+				if class == core.Budget {
+					budgetDivisor, evals = 8, 300
+				}
+				mc, _ = core.Minimize(cs, class, chk, evals)
+				budgetDivisor = 1
+				if cl, d, _ := w.judge(w, mc); cl == class {
+					detail = d
+				} else {
+					mc = cs // the shortened budget misjudged a slow run: keep the original
+				}
 			}
 			res.Violations = append(res.Violations, api.Violation{Property: w.id, Class: class + "@" + v.String(), Detail: detail,
 				RunIndex: idx, Seed: b.Seed, Replay: encodeCase(mc, "", detail)})
